@@ -85,9 +85,16 @@ class LocalRunnerBackend(RunnerBackend):
         results = []  # type: List[Any]
 
         # Bulk query for existing mementos
-        existing_mementos = storage_backend.get_mementos(
-            [f.fn_reference_with_arg_hash() for f in fn_reference_with_args]
-        )
+        try:
+            existing_mementos = storage_backend.get_mementos(
+                [f.fn_reference_with_arg_hash() for f in fn_reference_with_args]
+            )
+        except IOError:
+            # Each call is looked up again, one by one, in memento_run_local
+            log.warning(
+                "IO Error during bulk query for memoized results.", exc_info=True
+            )
+            existing_mementos = [None] * len(fn_reference_with_args)
 
         if (
             context.local.monitor_progress
@@ -281,9 +288,19 @@ def memento_run_local(
         try:
             call_stack.push_frame(stack_frame)
 
-            existing_memento = storage_backend.get_memento(
-                fn_reference_with_args.fn_reference_with_arg_hash()
-            )
+            try:
+                existing_memento = storage_backend.get_memento(
+                    fn_reference_with_args.fn_reference_with_arg_hash()
+                )
+            except IOError:
+                # Like a memoized result that cannot be read (see process_existing_memento):
+                # compute it again. Raising here would hand the error to the calling function's
+                # body, and the caller would memoize a storage failure as its own outcome.
+                log.warning(
+                    "IO Error while looking up memoized result. Recomputing.",
+                    exc_info=True,
+                )
+                existing_memento = None
             if existing_memento:
                 existing_memento_result = process_existing_memento(
                     storage_backend, existing_memento, context.local.ignore_result
@@ -338,9 +355,16 @@ def memento_run_local(
             #     1. This function was invoked in another thread or process and we lost the race
             #     2. A runner is being used that memoized the result in another process (possibly
             #        on another machine in a compute cluster) and the result is already memoized.
-            if not storage_backend.is_memoized(
-                fn_reference_with_args.fn_reference, fn_reference_with_args.arg_hash
-            ):
+            try:
+                already_memoized = storage_backend.is_memoized(
+                    fn_reference_with_args.fn_reference, fn_reference_with_args.arg_hash
+                )
+            except IOError:
+                log.warning(
+                    "IO Error while checking for a memoized result.", exc_info=True
+                )
+                already_memoized = False
+            if not already_memoized:
                 try:
                     storage_backend.memoize(key_override, stack_frame.memento, result)
                     memoization_status = "successfully memoized"
